@@ -2,10 +2,11 @@
 Source-to-Lean translator for the directory modes of peltool.py that only READ (stream `dirmodes`, properties C08, C09, C10).
 
 Reads the CURRENT text of
-    modules/pel/peltool/peltool.py   getFileList, printPELInHexFormat, extractAndSummarizePEL, listOption, extractAllPELsData, printPELCount,
+    modules/pel/peltool/peltool.py   parsePELSummary, getFileList, printPELInHexFormat, extractAndSummarizePEL, listOption, extractAllPELsData, printPELCount,
                                      parseAndPrintPELFile, parsePelFromID, parsePelFromBmcID, parsePelFromPLID, parsePelFromSRCID
                                      (+ the last statement of parsePEL and the signature of prettyPrint, for the width parsePEL aligns to)
     modules/pel/hexdump.py           the default `bytes_per_line` / `bytes_per_chunk` of hexdump
+    modules/pel/peltool/pel_types.py the VALUES of the SectionID enumeration
 with `ast` (nothing is imported or run) and writes lean/PelGen/GenDirModes.lean.  PelProps/TieC08.lean, TieC09.lean and TieC10.lean prove the
 hand-written modes of PelModel/Cli.lean equal to what is generated here.
 
@@ -66,6 +67,21 @@ Names of the code -> names of the model
     json.dumps(x, indent=4) -> dumps x;  prettyPrint(t[, desiredSpace=]n) -> prettyPrint n t   (default from prettyPrint's signature)
     hexdump(x) -> hexdump L C x with L, C the defaults in pel/hexdump.py;  memoryview(x) -> x
     summary[k] on what parsePELSummary returned -> pyGetItem (KeyError / TypeError -> raise)
+parsePELSummary(stream, config) ITSELF (Gen.parsePELSummary?; the modes above still call the primitive, and Tie.parsePELSummary_is_primitive
+proves the primitive to be this translation):
+    the stream parameter is read inside a loop, so it is one of the mutable locals (first component of σ); every reader call on it is
+        pyRdL <reader> <get> <set> (the value; the stream moves on; the reader's exception is raised)
+    ret, ph = generatePH(stream, out) -> pyRdL (generatePHRdJ env): optional (document, PHInfo); in the branch where the flag is known to be set
+        `out` is objSet out (sectionName env.T sidPH) <document> (generatePH stores under getSectionName(<the id it read>)); generateUH likewise
+        (sidUH); where the flag has not been tested `out` cannot be read
+    a, b, c, d, e = parseHeader(stream) -> pyRdL parseHeader; tuple position = field position (id len ver sub comp; Tie.parseHeader)
+    sectionFun(stream, <fresh OrderedDict D>, a, b, c, d, e, creator, config) -> pyRdL (namedBy env.T H (Prod.fst <$> decodeSection env creator H))
+        with H = SecHdr.mk a b c d e; afterwards D is the one-member dictionary [(name, document)]   (Tie.sectionFun of stream `dispatch`)
+    SectionID.<member>.value -> the int assigned to <member> in class SectionID of pel_types.py (read from its AST)
+    ph.lEID / ph.pLID -> ox (fmtHex 2 ph.eid) / ox (fmtHex 2 ph.plid) (Tie.phIdText of stream `sections`);  ph.commitTime, ph.sectionCount
+    D[k] on a dictionary -> pyGetItem (J.obj D) k;  k in x -> pyStrIn (the model's jItem / jIn);  OrderedDict() -> [];  range(a, b) -> List.range' a (b - a)
+    the literal keys "Private Header" / "User Header" / "Primary SRC" are compared with sectionName env.T <id>: the tie carries the hypothesis
+        NamesOk env.T (the live table, pinned by C01.pin_section_names)
 Module-level names the maps above rely on (sys, os, json, OrderedDict, DataStream, hexdump and the functions named above) must each be bound
 exactly once at module level, by the expected import / def; a local of the same name un-maps the name.
 """
@@ -76,19 +92,22 @@ import pytrans
 from pytrans import Untranslatable, lean_text, dotted
 
 PELTOOL = 'pel/peltool/peltool.py'
+PELTYPES = 'pel/peltool/pel_types.py'
 HEXDUMP = 'pel/hexdump.py'
 
 # ---- symbolic types
 BOOL, NAT, TEXT, OPT, BYTES, JV, DICT, FILE, FPATH, FILES, ROOT, DIR, CONFIG, STREAM, FD, PHOPT, UHOPT, PH, UH, FLAG, LINES, OUTDICT, EXC, NONE, SUMPAIR = (
     'bool', 'nat', 'text', 'opt', 'bytes', 'j', 'dict', 'file', 'fpath', 'files', 'root', 'dir', 'config', 'stream', 'fd', 'phopt', 'uhopt',
     'ph', 'uh', 'flag', 'lines', 'outdict', 'exc', 'none', 'sumpair')
+STREAMP, STREAMM, PHJOPT, UHJOPT, HDR5, NATS = 'streamp', 'streamm', 'phjopt', 'uhjopt', 'hdr5', 'nats'
 
-LEAN_TY = {BOOL: 'Bool', NAT: 'Nat', TEXT: 'Text', DICT: 'List (Text × J)', FILES: 'List FileEntry', JV: 'J'}
+LEAN_TY = {BOOL: 'Bool', NAT: 'Nat', TEXT: 'Text', DICT: 'List (Text × J)', FILES: 'List FileEntry', JV: 'J', BYTES: 'Bytes'}
 MUT_INIT = {BOOL: 'false', NAT: '0', DICT: '[]', FILES: '[]'}
 
 CFG_ATTR = {'hex': ('c.hex', BOOL), 'rev': ('c.rev', BOOL), 'extension': ('c.ext', OPT), 'plid': ('c.ids.plid', OPT), 'src': ('c.ids.src', OPT),
             'srcExcludeFile': ('c.ids.srcExcludeFile', OPT), 'bmcID': ('c.ids.bmcID', OPT), 'pelID': ('c.ids.pelID', OPT)}
-PH_ATTR = {'creatorID': ('creator', TEXT), 'obmcLogID': ('obmcLogID', NAT)}
+PH_ATTR = {'creatorID': ('%s.creator', TEXT), 'obmcLogID': ('%s.obmcLogID', NAT), 'sectionCount': ('%s.sectionCount', NAT),
+           'commitTime': ('%s.commitTime', TEXT), 'pLID': ('(ox (fmtHex 2 %s.plid))', TEXT), 'lEID': ('(ox (fmtHex 2 %s.eid))', TEXT)}
 
 # function -> (parameter kinds by position, return kind)
 SIGS = {
@@ -103,12 +122,13 @@ SIGS = {
     'parsePelFromBmcID': ([DIR, CONFIG], 'unit'),
     'parsePelFromPLID': ([DIR, CONFIG], 'unit'),
     'parsePelFromSRCID': ([DIR, CONFIG], 'unit'),
+    'parsePELSummary': ([STREAMP, CONFIG], 'textj'),
 }
 RET_LEAN = {'unit': 'Unit', 'textj': 'Text × J', 'bool': 'Bool', 'rootfiles': 'List FileEntry'}
 INLINED = ('printPELInHexFormat', 'extractAndSummarizePEL', 'parseAndPrintPELFile')
 EXPECTED_IMPORTS = {'sys': ('import', 'sys'), 'os': ('import', 'os'), 'json': ('import', 'json'),
                     'OrderedDict': ('from', 'collections', 'OrderedDict'), 'DataStream': ('from', 'pel.datastream', 'DataStream'),
-                    'hexdump': ('from', 'pel.hexdump', 'hexdump')}
+                    'hexdump': ('from', 'pel.hexdump', 'hexdump'), 'SectionID': ('from', 'pel.peltool.pel_types', 'SectionID')}
 EXPECTED_DEFS = ['getFileList', 'printPELInHexFormat', 'extractAndSummarizePEL', 'parseAndPrintPELFile', 'processId', 'parsePELSummary', 'parsePEL',
                  'generatePH', 'generateUH', 'considerPEL', 'prettyPrint']
 BUILTINS_USED = {'print', 'str', 'len', 'int', 'open', 'memoryview', 'Exception', 'True', 'False', 'None'}
@@ -164,6 +184,8 @@ class Module:
             if isinstance(n, (ast.Global, ast.Nonlocal)):
                 raise U('global / nonlocal statement', n)
         self.hex_defaults = self.read_hexdump_defaults(repo)
+        self.repo = repo
+        self._sids = None
 
     @staticmethod
     def bindings(n):
@@ -230,6 +252,27 @@ class Module:
             return (pytrans.const_int(a.defaults[0]), pytrans.const_int(a.defaults[1]), [x.arg for x in a.args])
         except (Untranslatable, OSError):
             return None
+
+    def section_id(self, member):
+        """the int assigned to `member` in class SectionID(Enum) of pel_types.py"""
+        self.need_import('SectionID')
+        if self._sids is None:
+            tree = pytrans.load_module_ast(self.repo, PELTYPES)
+            cls = [n for n in tree.body if isinstance(n, ast.ClassDef) and n.name == 'SectionID']
+            if len(cls) != 1:
+                raise Untranslatable('class SectionID of pel_types.py')
+            vals = {}
+            for n in cls[0].body:
+                if isinstance(n, ast.Assign) and len(n.targets) == 1 and isinstance(n.targets[0], ast.Name):
+                    if n.targets[0].id in vals:
+                        raise U('SectionID member assigned twice', n)
+                    vals[n.targets[0].id] = pytrans.const_int(n.value)
+                elif not (isinstance(n, ast.Expr) and isinstance(n.value, ast.Constant)) and not isinstance(n, ast.Pass):
+                    raise U('statement in class SectionID', n)
+            self._sids = vals
+        if member not in self._sids:
+            raise Untranslatable('SectionID.%s' % member)
+        return self._sids[member]
 
     def pretty_default(self):
         names, defaults = self.params('prettyPrint', 2)
@@ -338,7 +381,8 @@ class FnInfo:
                     ty = BOOL
                 elif isinstance(v, ast.Constant) and type(v.value) is int and v.value >= 0:
                     ty = NAT
-                elif isinstance(v, ast.Dict) and not v.keys:
+                elif (isinstance(v, ast.Dict) and not v.keys) or (isinstance(v, ast.Call) and isinstance(v.func, ast.Name) and v.func.id == 'OrderedDict'
+                                                                   and not v.args and not v.keywords):
                     ty = DICT
                 elif isinstance(v, ast.List) and not v.elts:
                     ty = FILES
@@ -354,6 +398,15 @@ class FnInfo:
         if missing:
             raise U('mutable local %s has no top-level initialisation' % sorted(missing)[0], fdef)
         self.mut = order
+        self.init_term = {}
+
+    def add_stream(self, name, term):
+        """the stream parameter is kept in the mutable locals (first component): it is read inside a loop"""
+        if name in self.mut:
+            raise U('the stream parameter is assigned', self.fdef)
+        self.mut.insert(0, name)
+        self.mut_ty[name] = BYTES
+        self.init_term[name] = term
 
     def sigma(self):
         if not self.mut:
@@ -363,7 +416,8 @@ class FnInfo:
     def init(self):
         if not self.mut:
             return '()'
-        return '(' + ', '.join('(%s : %s)' % (MUT_INIT[self.mut_ty[m]], LEAN_TY[self.mut_ty[m]]) for m in self.mut) + ')'
+        return '(' + ', '.join(self.init_term[m] if m in self.init_term else '(%s : %s)' % (MUT_INIT[self.mut_ty[m]], LEAN_TY[self.mut_ty[m]])
+                               for m in self.mut) + ')'
 
     def proj(self, name, l):
         i, n = self.mut.index(name), len(self.mut)
@@ -398,10 +452,18 @@ class Machine:
         self.n = 0
         self.depth = 0
         self.uses_excl = False
+        self.flag_effects = {}    # option term of generatePH / generateUH -> (name of `out`, its term before the call, section id constant)
 
     def fresh(self):
         self.n += 1
         return 'v%d' % self.n
+
+    def lens(self, ctx, sv):
+        """`get` / `set` of the stream kept in the mutable locals"""
+        info = ctx.info
+        l = self.fresh()
+        b = self.fresh()
+        return '(fun %s => %s) (fun %s %s => %s)' % (l, info.proj(sv.term, l), l, b, info.update(sv.term, l, b))
 
     def bindm(self, m, k):
         v = self.fresh()
@@ -414,6 +476,8 @@ class Machine:
             if nm in ctx.locals:
                 raise U('mutable local %s shadowed' % nm, node)
             ty = ctx.info.mut_ty[nm]
+            if nm in ctx.info.init_term:
+                return k(Val(nm, STREAMM))
             return self.bindm('OutM.getL', lambda l: k(Val(ctx.info.proj(nm, l), ty)))
         if nm in ctx.locals:
             v = ctx.locals[nm]
@@ -490,8 +554,11 @@ class Machine:
                     raise U('PrivateHeader attribute %s' % node.attr, node)
                 f, ty = PH_ATTR[node.attr]
                 if base.ty == PH:
-                    return k(Val('%s.%s' % (base.term, f), ty))
-                return self.bindm('pyDeref %s' % atom(base.term), lambda p: k(Val('%s.%s' % (p, f), ty)))
+                    return k(Val(f % base.term, ty))
+                return self.bindm('pyDeref %s' % atom(base.term), lambda p: k(Val(f % p, ty)))
+        d = dotted(node)
+        if d and d.startswith('SectionID.') and d.endswith('.value') and d.count('.') == 2 and 'SectionID' not in ctx.info.locals:
+            return k(Val(str(self.mod.section_id(d.split('.')[1])), NAT))
         raise U('attribute %s' % (dotted(node) or node.attr), node)
 
     def as_text(self, v, node):
@@ -658,7 +725,7 @@ class Machine:
         if d == 'OrderedDict':
             self.mod.need_import('OrderedDict')
             self.plain_args(node, 0)
-            return k(Val('()', OUTDICT))
+            return k(Val('([] : List (Text × J))', DICT, 'fresh'))
         if d == 'considerPEL':
             self.mod.need_def('considerPEL')
             a, b = self.plain_args(node, 2)
@@ -694,8 +761,15 @@ class Machine:
             a, b = self.plain_args(node, 2)
 
             def after(vs):
-                if vs[0].ty != STREAM or vs[1].ty != OUTDICT:
+                if vs[0].ty == STREAMM and vs[1].ty == DICT and isinstance(b, ast.Name) and b.id in ctx.locals:
+                    def contm(p):
+                        self.flag_effects[p] = (b.id, vs[1].term, 'sidPH')
+                        ctx.locals[b.id] = Val('()', OUTDICT)      # readable again only where the flag has been tested
+                        return k(Val(p, SUMPAIR, (FLAG, PHJOPT)))
+                    return self.bindm('pyRdL (generatePHRdJ env) %s' % self.lens(ctx, vs[0]), contm)
+                if vs[0].ty != STREAM or vs[1].ty != DICT or not (isinstance(b, ast.Name) and b.id in ctx.locals):
                     raise U('generatePH(%s, %s)' % (vs[0].ty, vs[1].ty), node)
+                ctx.locals[b.id] = Val('()', OUTDICT)              # what generatePH stores there is not tracked on this path: never read
 
                 def cont(p):
                     self.advance(a, ctx, '%s.2' % p)
@@ -707,14 +781,54 @@ class Machine:
             a, cr, b = self.plain_args(node, 3)
 
             def after(vs):
-                if vs[0].ty != STREAM or vs[1].ty != TEXT or vs[2].ty != OUTDICT:
+                if vs[0].ty == STREAMM and vs[1].ty == TEXT and vs[2].ty == DICT and isinstance(b, ast.Name) and b.id in ctx.locals:
+                    def contm(p):
+                        self.flag_effects[p] = (b.id, vs[2].term, 'sidUH')
+                        ctx.locals[b.id] = Val('()', OUTDICT)
+                        return k(Val(p, SUMPAIR, (FLAG, UHJOPT)))
+                    return self.bindm('pyRdL (generateUHRdJ env %s) %s' % (atom(vs[1].term), self.lens(ctx, vs[0])), contm)
+                if vs[0].ty != STREAM or vs[1].ty != TEXT or vs[2].ty not in (DICT, OUTDICT) or not (isinstance(b, ast.Name) and b.id in ctx.locals):
                     raise U('generateUH(%s, %s, %s)' % (vs[0].ty, vs[1].ty, vs[2].ty), node)
+                ctx.locals[b.id] = Val('()', OUTDICT)
 
                 def cont(p):
                     self.advance(a, ctx, '%s.2' % p)
                     return k(Val('%s.1' % p, SUMPAIR, (FLAG, UHOPT)))
                 return self.bindm('pyGenerateUH env %s %s' % (atom(vs[1].term), atom(vs[0].term)), cont)
             return self.ev_list([a, cr, b], ctx, after)
+        if d == 'parseHeader':
+            self.mod.need_def('parseHeader')
+            a, = self.plain_args(node, 1)
+
+            def after(v):
+                if v.ty != STREAMM:
+                    raise U('parseHeader(%s)' % v.ty, node)
+                return self.bindm('pyRdL parseHeader %s' % self.lens(ctx, v), lambda h: k(Val(h, HDR5)))
+            return self.ev(a, ctx, after)
+        if d == 'sectionFun':
+            self.mod.need_def('sectionFun')
+            args = self.plain_args(node, 9)
+
+            def after(vs):
+                tys = [v.ty for v in vs]
+                if tys != [STREAMM, DICT, NAT, NAT, NAT, NAT, NAT, TEXT, CONFIG] or vs[1].x != 'fresh' \
+                        or not (isinstance(args[1], ast.Name) and args[1].id in ctx.locals):
+                    raise U('sectionFun(%s)' % ', '.join(tys), node)
+                hdr = '(SecHdr.mk %s)' % ' '.join(atom(v.term) for v in vs[2:7])
+
+                def cont(p):
+                    ctx.locals[args[1].id] = Val('[(%s.1, %s.2)]' % (p, p), DICT)
+                    return k(Val('()', NONE))
+                return self.bindm('pyRdL (namedBy env.T %s (Prod.fst <$> decodeSection env %s %s)) %s' % (hdr, atom(vs[7].term), hdr, self.lens(ctx, vs[0])), cont)
+            return self.ev_list(list(args), ctx, after)
+        if d == 'range' and 'range' not in self.mod.bound:
+            a, b = self.plain_args(node, 2)
+
+            def after(vs):
+                if vs[0].ty != NAT or vs[1].ty != NAT:
+                    raise U('range(%s, %s)' % (vs[0].ty, vs[1].ty), node)
+                return k(Val("List.range' %s (%s - %s)" % (atom(vs[0].term), atom(vs[1].term), atom(vs[0].term)), NATS))
+            return self.ev_list([a, b], ctx, after)
         if d == 'getFileList':
             names, defaults = self.mod.params('getFileList', 3)
             if len(node.args) not in (2, 3) or node.keywords or any(isinstance(a, ast.Starred) for a in node.args):
@@ -769,6 +883,8 @@ class Machine:
         def after(vs):
             if vs[0].ty == JV and vs[1].ty == TEXT:
                 return self.bindm('pyGetItem %s %s' % (atom(vs[0].term), atom(vs[1].term)), lambda j: k(Val(j, JV)))
+            if vs[0].ty == DICT and vs[1].ty == TEXT:
+                return self.bindm('pyGetItem (J.obj %s) %s' % (atom(vs[0].term), atom(vs[1].term)), lambda j: k(Val(j, JV)))
             raise U('subscript of a %s with a %s' % (vs[0].ty, vs[1].ty), node)
         return self.ev_list([node.value, sl], ctx, after)
 
@@ -966,8 +1082,15 @@ class Machine:
         if v.ty == FLAG:
             w = self.fresh()
             ct, cf = ctx.copy(), ctx.copy()
+            if v.term in self.flag_effects:
+                outname, outterm, sid = self.flag_effects[v.term]
+                if outname in ctx.locals and ctx.locals[outname].ty == OUTDICT:
+                    ct.locals[outname] = Val('(objSet %s (sectionName env.T %s) %s.1)' % (atom(outterm), sid, w), DICT)
+                    cf.locals[outname] = Val(outterm, DICT)
             for nm, lv in list(ctx.locals.items()):
-                if lv.term == v.term and lv.ty in (PHOPT, UHOPT):
+                if lv.term == v.term and lv.ty in (PHJOPT, UHJOPT):
+                    ct.locals[nm] = Val('%s.2' % w, PH if lv.ty == PHJOPT else UH)
+                elif lv.term == v.term and lv.ty in (PHOPT, UHOPT):
                     ct.locals[nm] = Val(w, PH if lv.ty == PHOPT else UH)
                 elif lv.term == v.term and lv.ty == FLAG:
                     ct.locals[nm] = Val('true', BOOL)
@@ -989,7 +1112,7 @@ class Machine:
 
     def let(self, v, k):
         """name a pure term (sharing; the name never comes from the source)"""
-        if all(ch.isalnum() or ch in "._'" for ch in v.term) or v.ty in (STREAM, FD, ROOT, FILE, FPATH, CONFIG, DIR, OUTDICT, EXC, NONE, FLAG, PHOPT, UHOPT, PH, UH, SUMPAIR):
+        if all(ch.isalnum() or ch in "._'" for ch in v.term) or v.ty in (STREAM, FD, ROOT, FILE, FPATH, CONFIG, DIR, OUTDICT, EXC, NONE, FLAG, PHOPT, UHOPT, PH, UH, SUMPAIR, STREAMM, PHJOPT, UHJOPT, HDR5):
             return k(v)
         n = self.fresh()
         return 'let %s := %s\n%s' % (n, v.term, k(Val(n, v.ty, v.x)))
@@ -1116,6 +1239,9 @@ class Machine:
             return k(Val('[]', DICT))
         if isinstance(node, ast.List) and not node.elts:
             return k(Val('[]', FILES))
+        if isinstance(node, ast.Call) and self.callee_name(node, ctx) == 'OrderedDict' and not node.args and not node.keywords:
+            self.mod.need_import('OrderedDict')
+            return k(Val('[]', DICT))
         return self.ev(node, ctx, k)
 
     def store_mut(self, name, v, ctx, st, R):
@@ -1129,8 +1255,10 @@ class Machine:
     def bind_local(self, name, v, ctx, st, R):
         if v.ty == STREAM and v.x != 'fresh':
             raise U('alias of a stream', st)
-        if v.ty in (SUMPAIR, FLAG):
+        if v.ty in (SUMPAIR, FLAG, HDR5):
             raise U('a tuple bound to one name', st)
+        if v.ty == STREAMM:
+            raise U('alias of the stream', st)
 
         def k(w):
             ctx.locals[name] = w
@@ -1138,6 +1266,10 @@ class Machine:
         return self.let(v, k)
 
     def bind_tuple(self, names, v, ctx, st, R):
+        if v.ty == HDR5 and len(names) == 5:
+            for nm, f in zip(names, ('id', 'len', 'ver', 'sub', 'comp')):       # tuple position = field position (Tie.parseHeader)
+                ctx.locals[nm] = Val('%s.%s' % (v.term, f), NAT)
+            return R(ctx)
         if v.ty != SUMPAIR or len(names) != 2:
             raise U('tuple assignment from a %s' % v.ty, st)
         t1, t2 = v.x
@@ -1222,7 +1354,7 @@ class Machine:
                 if node.keywords:
                     return self.ev(node.keywords[0].value, ctx, after)
                 return after(Val('false', BOOL))
-        if d in INLINED:
+        if d in INLINED or d == 'sectionFun':
             return self.call(node, ctx, lambda v: R(ctx))
         raise U('call statement %s' % (d or dotted(node.func) or '?'), st)
 
@@ -1249,9 +1381,9 @@ class Machine:
                 if a.ty != ROOT or b.ty != FILES or b.x is not None:
                     raise U('getFileList must return <the walked directory>, <its list>', st)
                 return 'pure (Ctl.ret %s)' % atom(b.term)
-            if a.ty != TEXT or b.ty not in (TEXT, JV):
+            if a.ty != TEXT or b.ty not in (TEXT, JV, DICT):
                 raise U('return (%s, %s)' % (a.ty, b.ty), st)
-            bj = b.term if b.ty == JV else '(J.str %s)' % atom(b.term)
+            bj = b.term if b.ty == JV else '(J.obj %s)' % atom(b.term) if b.ty == DICT else '(J.str %s)' % atom(b.term)
             return 'pure (Ctl.ret (%s, %s))' % (a.term, bj)
         return self.ev_list(list(st.value.elts), ctx, after)
 
@@ -1291,6 +1423,8 @@ class Machine:
                 ety, ex = FILE, v.x
             elif v.ty == LINES:
                 ety, ex = TEXT, None
+            elif v.ty == NATS:
+                ety, ex = NAT, None
             else:
                 raise U('loop over a %s' % v.ty, st)
             x = self.fresh()
@@ -1317,6 +1451,9 @@ class Machine:
         for pn, kd, a in zip(pnames, kinds, args):
             if pn in info.mut:
                 raise U('parameter %s is mutated inside a loop / try' % pn, fdef)
+            if kd == STREAMP:
+                info.add_stream(pn, a.term)
+                continue
             if a.ty != kd:
                 raise U('argument of type %s for a %s parameter of %s' % (a.ty, kd, name), fdef)
             ctx.locals[pn] = a
@@ -1395,9 +1532,16 @@ def t_printFile(mod):
     return check_size('fun env c f x =>\n%s' % ind(term))
 
 
+def t_parsePELSummary(mod):
+    m = Machine(mod)
+    sigma, init, term = m.activation('parsePELSummary', [Val('b', STREAMP), Val('c', CONFIG)])
+    return check_size('fun env c b => OutM.result (σ := %s) %s (\n%s)' % (sigma, init, ind(term)))
+
+
 MODE_TY = 'Env → DirCfg → Dir → CliOut'
 TARGETS = [
     ('getFileList', 'Dir → Option Text → Bool → List FileEntry', t_getFileList),
+    ('parsePELSummary', 'Env → DirCfg → Bytes → PyRes (Text × J) × Text × Nat', t_parsePELSummary),
     ('printPELInHexFormat', 'Bytes → OutM Unit (Ctl Unit)', t_printHex),
     ('extractAndSummarizePEL', 'Env → DirCfg → FileEntry → OutM Unit (Ctl (Text × J))', t_extract),
     ('dirParseAndPrintPELFile', 'Env → DirCfg → FileEntry → Bool → OutM Unit (Ctl Bool)', t_printFile),
@@ -1419,14 +1563,18 @@ def generate(repo, verif):
     except (Untranslatable, SyntaxError, OSError) as e:
         mod, err = None, e
 
-    def thunk(fn):
+    forced = [x for x in os.environ.get('VERIF_DIRMODES_NONE', '').split(',') if x]   # self-test: these definitions become `none`
+
+    def thunk(fn, name=None):
         def run():
+            if name in forced:
+                raise Untranslatable('withdrawn by the self-test (VERIF_DIRMODES_NONE)')
             if mod is None:
                 raise Untranslatable('peltool.py: %s' % err)
             return fn(mod)
         return run
     for name, ty, fn in TARGETS:
-        gen.emit(name, ty, thunk(fn))
+        gen.emit(name, ty, thunk(fn, name))
     return gen
 
 
